@@ -1,9 +1,9 @@
 package main
 
 import (
-	"github.com/mmcloughlin/avo/build"
 	"encoding/json"
 	"fmt"
+	"github.com/mmcloughlin/avo/build"
 	"math"
 	"os"
 	"os/exec"
@@ -198,6 +198,8 @@ func genDataCase(r *RNG, name string) *dataCase {
 	return dc
 }
 
+var linkSymRe = regexp.MustCompile(`^g(\d+)(?:<>)?: `)
+
 // assemble all globals in one package and read their bytes back through the real toolchain
 func assembleAndRead(c *Ctx, cases []*dataCase, asmText []string) (map[int][]byte, map[int]string) {
 	dir := filepath.Join(c.Tmp, "c13pkg")
@@ -219,35 +221,62 @@ func assembleAndRead(c *Ctx, cases []*dataCase, asmText []string) (map[int][]byt
 		os.Remove(fn)
 	}
 	os.Remove(filepath.Join(dir, "one.o"))
-	var s, g strings.Builder
-	s.WriteString("#include \"textflag.h\"\n")
-	g.WriteString("package main\nimport (\"encoding/json\"; \"os\"; \"unsafe\")\n")
-	g.WriteString("func rd(p uintptr, n int) []int { b := make([]int, n); for i := range b { b[i] = int(*(*byte)(unsafe.Pointer(p + uintptr(i)))) }; return b }\n")
-	g.WriteString("func main() { m := map[int][]int{}\n")
-	for _, j := range ok {
-		fmt.Fprintf(&s, "%s\nTEXT ·addr%d(SB), NOSPLIT, $0-8\n\tLEAQ g%d<>(SB), AX\n\tMOVQ AX, ret+0(FP)\n\tRET\n", asmText[j], j, j)
-		if cases[j].G.Size > 0 {
-			fmt.Fprintf(&g, "m[%d] = rd(addr%d(), %d)\n", j, j, cases[j].G.Size)
+	var out []byte
+	for attempt := 0; ; attempt++ {
+		var s, g strings.Builder
+		s.WriteString("#include \"textflag.h\"\n")
+		g.WriteString("package main\nimport (\"encoding/json\"; \"os\"; \"unsafe\")\n")
+		g.WriteString("func rd(p uintptr, n int) []int { b := make([]int, n); for i := range b { b[i] = int(*(*byte)(unsafe.Pointer(p + uintptr(i)))) }; return b }\n")
+		g.WriteString("func main() { m := map[int][]int{}\n")
+		for _, j := range ok {
+			fmt.Fprintf(&s, "%s\nTEXT ·addr%d(SB), NOSPLIT, $0-8\n\tLEAQ g%d<>(SB), AX\n\tMOVQ AX, ret+0(FP)\n\tRET\n", asmText[j], j, j)
+			if cases[j].G.Size > 0 {
+				fmt.Fprintf(&g, "m[%d] = rd(addr%d(), %d)\n", j, j, cases[j].G.Size)
+			}
 		}
-	}
-	g.WriteString("json.NewEncoder(os.Stdout).Encode(m) }\n")
-	for _, j := range ok {
-		fmt.Fprintf(&g, "func addr%d() uintptr\n", j)
-	}
-	os.WriteFile(filepath.Join(dir, "data.s"), []byte(s.String()), 0o644)
-	os.WriteFile(filepath.Join(dir, "main.go"), []byte(g.String()), 0o644)
-	os.WriteFile(filepath.Join(dir, "go.mod"), []byte("module c13pkg\n\ngo 1.23\n"), 0o644)
-	cmd := exec.Command("go", "run", ".")
-	cmd.Dir = dir
-	cmd.Env = append(os.Environ(), "GOFLAGS=-mod=mod")
-	out, err := cmd.Output()
-	if err != nil {
+		g.WriteString("json.NewEncoder(os.Stdout).Encode(m) }\n")
+		for _, j := range ok {
+			fmt.Fprintf(&g, "func addr%d() uintptr\n", j)
+		}
+		os.WriteFile(filepath.Join(dir, "data.s"), []byte(s.String()), 0o644)
+		os.WriteFile(filepath.Join(dir, "main.go"), []byte(g.String()), 0o644)
+		os.WriteFile(filepath.Join(dir, "go.mod"), []byte("module c13pkg\n\ngo 1.23\n"), 0o644)
+		cmd := exec.Command("go", "run", ".")
+		cmd.Dir = dir
+		cmd.Env = append(os.Environ(), "GOFLAGS=-mod=mod")
+		var err error
+		out, err = cmd.Output()
+		if err == nil {
+			break
+		}
 		ee, _ := err.(*exec.ExitError)
 		msg := ""
 		if ee != nil {
 			msg = string(ee.Stderr)
 		}
-		die(fmt.Errorf("c13 toolchain run failed: %v %s", err, msg))
+		// the linker names the symbols it refuses (e.g. "g11: initialize bounds (12 < 40)": data beyond the
+		// declared size): those sections are reported with their histories, the rest is read back
+		bad := map[int]string{}
+		for _, ln := range strings.Split(msg, "\n") {
+			if mm := linkSymRe.FindStringSubmatch(ln); mm != nil {
+				j, _ := strconv.Atoi(mm[1])
+				if _, seen := bad[j]; !seen {
+					bad[j] = "link: " + strings.TrimSpace(ln)
+				}
+			}
+		}
+		if len(bad) == 0 || attempt > 3 {
+			die(fmt.Errorf("c13 toolchain run failed: %v %s", err, msg))
+		}
+		var rest []int
+		for _, j := range ok {
+			if why, isBad := bad[j]; isBad {
+				rejected[j] = why
+			} else {
+				rest = append(rest, j)
+			}
+		}
+		ok = rest
 	}
 	var m map[string][]int
 	if err := json.Unmarshal(out, &m); err != nil {
